@@ -81,7 +81,7 @@ ENGINES = [
     },
     {
         "name": "unsat-cache-model",
-        "path": "spec/UnsatCache.tla spec/Trace_UnsatCache.tla spec/MC_UnsatCache*.cfg spec/MC_Trace_UnsatCache*.cfg harness/unsatcache_replay.py checks/c16.py",
+        "path": "spec/UnsatCache.tla spec/Trace_UnsatCache.tla spec/MC_UnsatCache*.cfg spec/MC_Trace_UnsatCache*.cfg harness/unsatcache_replay.py checks/c16.py harness/coreless_solver.py",
         "serves_properties": ["C16"],
         "kind_free_text": "TLC model-checks the unsat-core cache (condition ids, their recycling, the references that pin them) and validates logs recorded from real run_contract executions against the model; cache-on and cache-off runs are compared",
     },
@@ -219,7 +219,7 @@ CHECKS: dict[str, dict] = {
     },
     "C16": {
         "engine": "unsat-cache-model",
-        "technique": "UnsatCache.tla (condition ids, recycling of ids after garbage collection, the two references that pin them, core storage and subset lookup) model-checked by TLC; logs recorded from real run_contract executions validated against Trace_UnsatCache.tla; cache-on vs cache-off differential",
+        "technique": "UnsatCache.tla (condition ids, recycling of ids after garbage collection, the two references that pin them, core storage and subset lookup) model-checked by TLC; logs recorded from real run_contract executions validated against Trace_UnsatCache.tla; cache-on vs cache-off differential (also through a solver front-end whose unsat cores are empty)",
         "text": "UnsatCache.tla models what --cache-solver relies on: z3 ast ids name constraints only while the objects live; a stored core is a set of ids; a later query hits when a core is a subset of its ids. TLC checks CacheSound (a hit only on a query that contains a jointly unsatisfiable set of constraints), CoresDenoteUnsat and PinnedStable with both references that keep the ids alive (the futures' callbacks; the shared term_to_vars dict), with either alone, and REFUTES CacheSound when neither is present (id recycled for another constraint). Generated test contracts are run through the real run_contract with and without --cache-solver (and again in a fresh process): every id list, stored core, hit/miss and test boundary is recorded (texts only, gc forced between paths) and the logs are validated by Trace_UnsatCache.tla in one TLC run against the query's own cache-off solver verdict; exit codes, path counts, per-path results and counterexample validity must coincide between cache on and off; parse_unsat_core is driven with 31 solver output shapes. Nine negative controls (corrupted logs, a lookup ignoring an id, a core stored as strict subset, both pins released ...) must be rejected.",
         "note": "Invariant-test probes are not generated. The recorder serialises check_unsat_cores / append_unsat_core, so a data race between them would not be seen. Model-fidelity clauses (the model no longer describes the code) are machinery errors, not violations.",
         "design_ref": "5 C16, 3.4",
